@@ -171,6 +171,17 @@ fn scenarios() -> Vec<Scenario> {
     let f3 = Op::Fmt2("aaa\x1b[1m", "bbb\x1b[0m");
     let k0 = Op::Lit(0);
     let k1 = Op::Lit(1);
+    // no ESC at all, but control bytes the stripper drops: still several printable runs in strip mode
+    let c1 = Op::All(b"p\x08q\x07r\n");
+    let c2 = Op::All(b"s\x7ft\x00u\n");
+    // buffers beyond 64 KiB (a stream that hands its inner writer bounded pieces must hold the lock across all of them)
+    let big = |tag: u8, n: usize| -> Op {
+        let unit = [&[tag][..], b"23456\x1b[1m789\x1b[0m\n"].concat();
+        // whole units only: every operation must leave the stream in the ground state (the expected output of an
+        // operation is computed on its own)
+        Op::All(Box::leak(unit.repeat(n / unit.len() + 1).into_boxed_slice()))
+    };
+    let (b1, b2, b3) = (big(b'A', 70_000), big(b'B', 65_537), big(b'C', 140_000));
     let mut v = vec![];
     for (mode, mn) in [
         (Mode::Never, "never"),
@@ -186,6 +197,10 @@ fn scenarios() -> Vec<Scenario> {
         v.push(Scenario { chunk: usize::MAX, name: leak(format!("{mn}/2x2/lit,fmt-line,lit")), mode, threads: vec![vec![k0, f2], vec![l1, k1]], preemptions: 2, thorough_only: false });
         v.push(Scenario { chunk: usize::MAX, name: leak(format!("{mn}/2x2/fmt,all-line,all")), mode, threads: vec![vec![f1, w1], vec![l1, w2]], preemptions: 2, thorough_only: false });
         v.push(Scenario { chunk: usize::MAX, name: leak(format!("{mn}/3x1/fmt-line-all")), mode, threads: vec![vec![f1], vec![l1], vec![w1]], preemptions: 2, thorough_only: false });
+        v.push(Scenario { chunk: usize::MAX, name: leak(format!("{mn}/2x1/controls-all")), mode, threads: vec![vec![c1], vec![w1]], preemptions: 3, thorough_only: false });
+        v.push(Scenario { chunk: usize::MAX, name: leak(format!("{mn}/2x2/controls,fmt-controls,line")), mode, threads: vec![vec![c1, f1], vec![c2, l1]], preemptions: 2, thorough_only: false });
+        v.push(Scenario { chunk: usize::MAX, name: leak(format!("{mn}/2x1/big-big")), mode, threads: vec![vec![b1], vec![b2]], preemptions: 3, thorough_only: false });
+        v.push(Scenario { chunk: usize::MAX, name: leak(format!("{mn}/2x2/big,fmt-line,big")), mode, threads: vec![vec![b3, f1], vec![l1, b2]], preemptions: 2, thorough_only: false });
         // the same over a sink that accepts at most 2 bytes per write call
         v.push(Scenario { chunk: 2, name: leak(format!("{mn}/short-sink/2x1/all-all")), mode, threads: vec![vec![w3], vec![w4]], preemptions: 3, thorough_only: false });
         v.push(Scenario { chunk: 2, name: leak(format!("{mn}/short-sink/2x1/fmt-lit")), mode, threads: vec![vec![f3], vec![k1]], preemptions: 2, thorough_only: false });
@@ -278,14 +293,24 @@ fn run_stream_scenario(sc: &'static Scenario) -> Value {
         *OUTCOMES.lock().unwrap().entry(got).or_insert(0) += 1;
     });
     let outcomes = OUTCOMES.lock().unwrap();
-    let bad: Vec<String> = outcomes.keys().filter(|k| !allowed.contains(*k)).map(|k| vexplore::util::show(k)).collect();
+    // (outcomes of the big-buffer scenarios are abbreviated: head ... tail)
+    let brief = |k: &Vec<u8>| -> String {
+        let t = vexplore::util::show(k);
+        if t.len() > 400 {
+            let cs: Vec<char> = t.chars().collect();
+            format!("{} ... ({} bytes) ... {}", cs[..150].iter().collect::<String>(), k.len(), cs[cs.len() - 150..].iter().collect::<String>())
+        } else {
+            t
+        }
+    };
+    let bad: Vec<String> = outcomes.keys().filter(|k| !allowed.contains(*k)).map(brief).collect();
     json!({
         "scenario": sc.name, "kind": "stream", "executions": EXECUTIONS.load(StdOrdering::Relaxed),
         "distinct_outcomes": outcomes.len(), "allowed_outcomes": allowed.len(),
         "sink_accepts_per_write": if sc.chunk == usize::MAX { json!("everything") } else { json!(sc.chunk) },
         "preemption_bound": if sc.preemptions == usize::MAX { json!("none (full DPOR)") } else { json!(sc.preemptions) }, "threads": sc.threads.len(),
         "interleaved_outcomes": bad,
-        "sample_outcome": outcomes.keys().next().map(|k| vexplore::util::show(k)),
+        "sample_outcome": outcomes.keys().next().map(brief),
     })
 }
 
